@@ -397,6 +397,11 @@ Configuration::Configuration(std::string cfg_filename, int MPI_rank)
 // 6. Other utilities
 std::vector<int> Workload_Distribution(unsigned int workers, unsigned int tasks)
 {
+	if(workers == 0)
+	{
+		std::cerr << "Error in libphysica::Workload_Distribution(): The number of workers must be positive." << std::endl;
+		std::exit(EXIT_FAILURE);
+	}
 	int tasks_per_worker = tasks / workers;
 	std::vector<int> index_list(workers + 1, 0);
 	for(unsigned int i = 0; i < workers; i++)
